@@ -49,14 +49,14 @@ func c04CloneCase(c *c04Case) *c04Case {
 
 // greedy deletion over a JSON document held in a file of the case (or in c.Yaml)
 func (s *c04Shrinker) shrinkJSON(c *c04Case, get func(*c04Case) []byte, set func(*c04Case, []byte)) *c04Case {
-	root, err := jParse(get(c))
+	root, err := c04JParse(get(c))
 	if err != nil {
 		return c
 	}
 	progress := true
 	for progress && s.evals < s.budget {
 		progress = false
-		sites := jSites(root)
+		sites := c04JSites(root)
 		// coarse first: shallow nodes before deep ones
 		sort.SliceStable(sites, func(i, j int) bool { return sites[i].depth < sites[j].depth })
 		for _, st := range sites {
@@ -73,7 +73,7 @@ func (s *c04Shrinker) shrinkJSON(c *c04Case, get func(*c04Case) []byte, set func
 			if idx < 0 {
 				continue
 			}
-			savedKeys, savedVals := append([]string{}, st.parent.keys...), append([]*jNode{}, st.parent.vals...)
+			savedKeys, savedVals := append([]string{}, st.parent.keys...), append([]*c04JNode{}, st.parent.vals...)
 			if st.parent.kind == "obj" {
 				st.parent.keys = append(st.parent.keys[:idx:idx], st.parent.keys[idx+1:]...)
 			}
@@ -156,7 +156,7 @@ func c04Shrink(pool *c04Pool, c *c04Case, budget int) (*c04Case, c04Result, int)
 		}
 		sort.Strings(names)
 		for _, n := range names {
-			if _, err := jParse(cur.Files[n]); err == nil {
+			if _, err := c04JParse(cur.Files[n]); err == nil {
 				cur = s.shrinkJSON(cur, fileGet(n), fileSet(n))
 			} else {
 				cur = s.shrinkLines(cur, fileGet(n), fileSet(n))
